@@ -26,4 +26,12 @@ def precedes (a b : String) (l : List String) : Bool :=
   let post := l.dropWhile (· != b)
   pre.contains a && !post.contains a && !post.isEmpty
 
+/-- in a table of field assignments (field, source expression), `f` is assigned exactly once, from `e` -/
+def onlySource (t : List (String × String)) (f e : String) : Bool :=
+  t.filter (fun p => p.1 == f) == [(f, e)]
+
+/-- every listed field is assigned exactly once, from the same-named field of `recv` (given as "recv.") -/
+def forwardsAll (t : List (String × String)) (fields : List (String × String)) : Bool :=
+  fields.all (fun p => onlySource t p.1 p.2)
+
 end Helm.Spec
